@@ -350,7 +350,7 @@ Proof. destruct ctx as [[e h]|]; repeat constructor. Qed.
 Lemma qinv_step : forall s s', qinv s -> step s = Some s' -> qinv s'.
 Proof.
   intros s s' I H. unfold DispatchOrder.step in H.
-  destruct (stack s) as [|[ctx [|[n p| |] acts]| |x rem chk] k] eqn:Hstk; try discriminate.
+  destruct (stack s) as [|[ctx [|[n p| | |] acts]| |x rem chk] k] eqn:Hstk; try discriminate.
   - (* body returns *)
     inversion H; subst; clear H.
     eapply qinv_quiet with (t := match ctx with Some (e, h) => [TRet e h] | None => [] end);
@@ -391,6 +391,10 @@ Proof.
   - (* stop *)
     destruct ctx as [[e h]|]; simpl in H; inversion H; subst; clear H.
     + eapply qinv_quiet with (t := [TStop e h]); eauto; try reflexivity. repeat constructor.
+    + eapply qinv_quiet with (t := []); eauto; try reflexivity.
+  - (* return of a generator *)
+    destruct ctx as [[e h]|]; simpl in H; inversion H; subst; clear H.
+    + eapply qinv_quiet with (t := [TGen e h]); eauto; try reflexivity. repeat constructor.
     + eapply qinv_quiet with (t := []); eauto; try reflexivity.
   - (* loop head *)
     destruct (batch s =? 0) eqn:Bz.
@@ -523,7 +527,7 @@ Qed.
 Lemma wf_step : forall s s', wfstack (stack s) -> step s = Some s' -> wfstack (stack s').
 Proof.
   intros s s' W H. unfold DispatchOrder.step in H.
-  destruct (stack s) as [|[ctx [|[n p| |] acts]| |x rem chk] k] eqn:Hstk; try discriminate.
+  destruct (stack s) as [|[ctx [|[n p| | |] acts]| |x rem chk] k] eqn:Hstk; try discriminate.
   - inversion H; subst; clear H. simpl. apply wfstack_body in W. inversion W; subst.
     + left; auto.
     + right; right; right. eauto 8.
@@ -531,6 +535,9 @@ Proof.
   - apply wfstack_body in W.
     destruct (batch s =? 0); inversion H; subst; clear H; simpl;
       right; right; left; eexists; split; eauto; eapply wfB_acts; eauto.
+  - apply wfstack_body in W.
+    destruct ctx as [[e h]|]; simpl in H; inversion H; subst; clear H; simpl;
+      right; left; eapply wfB_acts; eauto.
   - apply wfstack_body in W.
     destruct ctx as [[e h]|]; simpl in H; inversion H; subst; clear H; simpl;
       right; left; eapply wfB_acts; eauto.
@@ -700,7 +707,7 @@ Qed.
 Lemma hinv_step : forall s s', qinv s -> wfstack (stack s) -> hinv s -> step s = Some s' -> hinv s'.
 Proof.
   intros s s' Q W I H. unfold DispatchOrder.step in H.
-  destruct (stack s) as [|[ctx [|[n p| |] acts]| |x rem chk] k] eqn:Hstk; try discriminate.
+  destruct (stack s) as [|[ctx [|[n p| | |] acts]| |x rem chk] k] eqn:Hstk; try discriminate.
   - (* body returns *)
     inversion H; subst; clear H.
     eapply hinv_plain with (t := match ctx with Some (e, h) => [TRet e h] | None => [] end);
@@ -747,6 +754,13 @@ Proof.
            ++ right. apply Hs. eauto.
            ++ inversion E; subst. auto.
       * apply ok_stop_snoc; auto. intros; discriminate.
+    + eapply hinv_plain with (t := []); eauto; try reflexivity; try constructor; rewrite Hstk; simpl; auto.
+      intros x rem chk [E|E]; [discriminate|auto].
+  - (* return of a generator *)
+    destruct ctx as [[e h]|]; simpl in H; inversion H; subst; clear H.
+    + eapply hinv_plain with (t := [TGen e h]); eauto; try reflexivity; try (repeat constructor);
+        rewrite Hstk; simpl; auto.
+      intros x rem chk [E|E]; [discriminate|auto].
     + eapply hinv_plain with (t := []); eauto; try reflexivity; try constructor; rewrite Hstk; simpl; auto.
       intros x rem chk [E|E]; [discriminate|auto].
   - (* loop head *)
@@ -934,7 +948,7 @@ Proof.
     - intros e h I. rewrite Et in *. apply in_app_iff in I. destruct I as [I|I].
       + apply invs_mono. auto.
       + exfalso. eapply Nt; eauto. }
-  destruct (stack s) as [|[ctx [|[n p| |] acts]| |x rem chk] k] eqn:Hstk; try discriminate.
+  destruct (stack s) as [|[ctx [|[n p| | |] acts]| |x rem chk] k] eqn:Hstk; try discriminate.
   - inversion H; subst; clear H.
     apply Keep with (t := match ctx with Some (e, h) => [TRet e h] | None => [] end);
       [reflexivity|destruct ctx as [[e h]|]; nostop_tac|frames_tac].
@@ -951,6 +965,9 @@ Proof.
         -- eapply Bf. right. eauto.
       * intros e0 h0 I. apply invs_mono. apply in_app_iff in I. destruct I as [I|[I|[]]]; auto.
         inversion I; subst. eapply Bf. left. reflexivity.
+    + apply Keep with (t := []); [reflexivity|nostop_tac|frames_tac].
+  - destruct ctx as [[e h]|]; simpl in H; inversion H; subst; clear H.
+    + apply Keep with (t := [TGen e h]); [reflexivity|nostop_tac|frames_tac].
     + apply Keep with (t := []); [reflexivity|nostop_tac|frames_tac].
   - destruct (batch s =? 0); [|destruct (pop_min (heap s)) as [[m h']|]]; inversion H; subst; clear H.
     + apply Keep with (t := [TFlushE]); [reflexivity|nostop_tac|frames_tac].
@@ -1013,11 +1030,13 @@ Lemma flush_count_step : forall s s', qinv s -> step s = Some s' ->
   loops (stack s) + nE (trace s) = nB (trace s) -> loops (stack s') + nE (trace s') = nB (trace s').
 Proof.
   intros s s' Q H. unfold DispatchOrder.step in H.
-  destruct (stack s) as [|[ctx [|[n p| |] acts]| |x rem chk] k] eqn:Hstk; try discriminate.
+  destruct (stack s) as [|[ctx [|[n p| | |] acts]| |x rem chk] k] eqn:Hstk; try discriminate.
   - inversion H; subst; clear H. destruct ctx as [[e h]|]; unfold loops, nB, nE; simpl;
       rewrite ?filter_app, ?app_length; simpl; lia.
   - inversion H; subst; clear H. unfold loops, nB, nE; simpl; rewrite ?filter_app, ?app_length; simpl; lia.
   - destruct (batch s =? 0); inversion H; subst; clear H; unfold loops, nB, nE; simpl;
+      rewrite ?filter_app, ?app_length; simpl; lia.
+  - destruct ctx as [[e h]|]; simpl in H; inversion H; subst; clear H; unfold loops, nB, nE; simpl;
       rewrite ?filter_app, ?app_length; simpl; lia.
   - destruct ctx as [[e h]|]; simpl in H; inversion H; subst; clear H; unfold loops, nB, nE; simpl;
       rewrite ?filter_app, ?app_length; simpl; lia.
